@@ -144,3 +144,12 @@ package ledger
 
 // package-level constant in all but name
 //@ assume Zero != nil && val(Zero) == 0
+
+// ---- C04: what the read API reports for an account or an aggregate is input - output, asset by asset (each asset its
+// own number: the accumulator of one asset is never the value stored for another)
+//@ func (ledger.VolumesByAssets).Balances
+//@   requires forall a0 string :: has(v, a0) ==> v[a0] != nil && v[a0].Input != nil && v[a0].Output != nil
+//@   ensures ret != nil && (forall a1 string :: has(v, a1) ==> has(ret, a1) && ret[a1] != nil && val(ret[a1]) == val(v[a1].Input) - val(v[a1].Output))
+//@   loop 1 invariant balances != nil && (forall a2 string :: in(a2, visited) ==> has(balances, a2) && balances[a2] != nil && val(balances[a2]) == val(v[a2].Input) - val(v[a2].Output))
+//@   modifies map[string]*big.Int
+//@   property C04
